@@ -334,7 +334,7 @@ def run_one(spec, variant, overrides, limit=None):
         oh = U.OneHotBrackets(sch.num_brackets)
         sch.bracket_distribution = oh
     rng = _random.Random(spec["script_seed"])
-    trace = []
+    trace, reports = [], []
     running, paused, resource, trials = [], set(), {}, {}
     next_id, started = 0, 0
     max_t = spec["max_t"]
@@ -423,6 +423,7 @@ def run_one(spec, variant, overrides, limit=None):
             trace.append(("raised", tid, r, type(e).__name__))
             break
         trace.append(("result", tid, r, dec))
+        reports.append((tid, dict(result)))
         if dec == "STOP":
             running.remove(tid)
             sch.on_trial_remove(trials[tid])
@@ -433,7 +434,45 @@ def run_one(spec, variant, overrides, limit=None):
         elif r >= max_t:
             running.remove(tid)
             sch.on_trial_complete(trials[tid], dict(result))
+    trace.extend(reported_summary(spec, variant, sch, reports))
     return trace
+
+
+def unmirror_mode(spec, variant, mode):
+    """what the mode reported by the variant-1 scheduler must be once the mirror is undone"""
+    if variant == 0 or mode is None:
+        return mode
+    if isinstance(mode, (list, tuple)):
+        mask = spec.get("mask") or [True] * len(mode)
+        return [flip(m) if f else m for m, f in zip(mode, mask)]
+    return flip(mode)
+
+
+def reported_summary(spec, variant, sch, reports):
+    """What the scheduler tells the outside world about the optimisation direction, and what a results report built on
+    it (ExperimentResult.best_config with the scheduler's metadata()) calls the best trial, per metric: must mirror."""
+    out = []
+    try:
+        out.append(("metric_mode", unmirror_mode(spec, variant, sch.metric_mode())))
+        md = sch.metadata()
+        out.append(("metadata", list(md["metric_names"]), unmirror_mode(spec, variant, md["metric_mode"])))
+    except Exception as e:
+        out.append(("raised", "metadata", 0, type(e).__name__))
+        return out
+    if not reports:
+        return out
+    try:
+        import pandas as pd
+        from syne_tune.experiments.experiment_result import ExperimentResult
+        names = list(md["metric_names"])
+        rows = [dict(result, trial_id=tid) for tid, result in reports]
+        er = ExperimentResult(name="pair", results=pd.DataFrame(rows), metadata=md, tuner=None, path=None)
+        for i in range(len(names)):
+            best = er.best_config(metric=i)
+            out.append(("best", i, int(best["trial_id"]), int(best["epoch"])))
+    except Exception as e:
+        out.append(("raised", "best_config", 0, type(e).__name__))
+    return out
 
 
 def first_divergence(a, b):
